@@ -42,6 +42,10 @@ pub struct C07Case {
     /// cancel plans: cancel() is called (and has returned) before run() is entered
     #[serde(default)]
     pub pre_cancel: bool,
+    /// cancel plans: no source block; the application feeds the first stream, wrote a little
+    /// and keeps the write end alive and idle outside the graph (blocks starve until cancelled)
+    #[serde(default)]
+    pub external: bool,
 }
 
 /// No runner may ask for one uninterruptible sleep longer than this: the cancellation token
@@ -69,7 +73,11 @@ fn scenario(c: &C07Case, out: Arc<Mutex<Outcome>>) {
         Fault::Cancel { delay } | Fault::Both { delay, .. } => Some(delay),
         _ => None,
     };
-    let mut b = build_opts(r, Some(size), endless);
+    let external = c.external && matches!(c.fault, Fault::Cancel { .. });
+    let mut b = build_src(r, Some(size), if external { 2 } else if endless { 1 } else { 0 });
+    if b.blocks.is_empty() {
+        return;
+    }
     let n = b.blocks.len();
     let shared = Shared::new(n);
     let fail = match c.fault {
@@ -149,8 +157,8 @@ impl Prop for C07 {
             1 => (prop_oneof![Just(0xffffu16), any::<u16>()], 1u8..4).prop_map(|(mask, k)| Fault::FailMany { mask, k }),
         ];
         let pending = prop_oneof![2 => Just(None), 1 => (any::<u8>(), 1u8..6, 1u8..30).prop_map(Some)];
-        (recipe_strategy(tier.pick(12_000, 30_000) as u32), any::<bool>(), fault, any::<bool>(), decisions_strategy(tier.pick(400, 1500) as usize), pending, prop::bool::weighted(0.15))
-            .prop_map(|(recipe, mt, fault, endless, decisions, pending, pre_cancel)| C07Case { recipe, mt, fault, endless, decisions, pending, pre_cancel })
+        (recipe_strategy(tier.pick(12_000, 30_000) as u32), any::<bool>(), fault, any::<bool>(), decisions_strategy(tier.pick(400, 1500) as usize), pending, (prop::bool::weighted(0.15), prop::bool::weighted(0.25)))
+            .prop_map(|(recipe, mt, fault, endless, decisions, pending, (pre_cancel, external))| C07Case { recipe, mt, fault, endless, decisions, pending, pre_cancel, external })
             .boxed()
     }
     fn cases(&self, tier: Tier) -> u64 {
@@ -189,6 +197,9 @@ impl Prop for C07 {
         }
         if case.pre_cancel && matches!(case.fault, Fault::Cancel { .. } | Fault::Both { .. }) {
             ctx.class("cancelled before run() was entered");
+        }
+        if case.external && matches!(case.fault, Fault::Cancel { .. }) {
+            ctx.class("fed from outside the graph: writer alive and idle");
         }
         if case.mt && case.pending.is_some() {
             ctx.class("a block answers Pending for a while");
@@ -326,7 +337,7 @@ impl Prop for C07 {
         }
     }
     fn rule(&self) -> String {
-        "generated: both runners x graph recipe (as C06) x fault plan: cancel, fail, several failing blocks (up to every block of the graph), or cancel and fail at once (the failing call passes 0-5 scheduling points before it returns while the canceller runs: a failure must be reported even if cancellation was requested during the failing call); cancel (a canceller task calls cancel() after d of its own scheduling points: during work calls, while everybody waits; in 15% of the cancel plans cancel() has returned before run() is entered) or fail (a wrapper block at a generated position returns Err('injected#p') on its k-th call, k in 1..6) x scheduler decision stream; run() executes on the shuttle runtime (for Graph too, so that the canceller interleaves at every stream lock). Oracle: cancel => run() returns, returns Ok, per block at most 1 work() call started after cancel() had returned, and (MTGraph) every block has been dropped; fail => run() returns Err whose text contains the injected marker; a panic, Ok, a different error or non-return is a violation. Non-trivial: the failing block is neither first nor last, or the cancellation landed after blocks had started working; distinct = hash of (recipe, fault, decisions).".into()
+        "generated: both runners x graph recipe (as C06) x fault plan: cancel, fail, several failing blocks (up to every block of the graph), or cancel and fail at once (the failing call passes 0-5 scheduling points before it returns while the canceller runs: a failure must be reported even if cancellation was requested during the failing call); cancel (a canceller task calls cancel() after d of its own scheduling points: during work calls, while everybody waits; in 15% of the cancel plans cancel() has returned before run() is entered; in a quarter of them the graph has no source block: the application feeds the first stream, wrote a little and keeps the write end alive and idle outside the graph, so the blocks starve until cancelled) or fail (a wrapper block at a generated position returns Err('injected#p') on its k-th call, k in 1..6) x scheduler decision stream; run() executes on the shuttle runtime (for Graph too, so that the canceller interleaves at every stream lock). Oracle: cancel => run() returns, returns Ok, per block at most 1 work() call started after cancel() had returned, and (MTGraph) every block has been dropped; fail => run() returns Err whose text contains the injected marker; a panic, Ok, a different error or non-return is a violation. Non-trivial: the failing block is neither first nor last, or the cancellation landed after blocks had started working; distinct = hash of (recipe, fault, decisions).".into()
     }
     fn assumptions(&self) -> Vec<String> {
         vec![
